@@ -23,7 +23,8 @@ EXPLANATION = (
     "CFG, callee summaries); (R3) CheckRemainingInput puts the delimiter it looked at back; (R4) the real writer's "
     "format constants conform to ISO 10303-21 and its scratch buffer is at least as large as the maximal expansion of "
     "its format plus the appended point; enumeration/binary/reference writers emit their delimiters; (R6) the four "
-    "enumeration item look-ups decide by whole-string equality. Not decided: equality of the hand-written scanners' "
+    "enumeration item look-ups decide by whole-string equality; (R7) in the files that read literals a severity already raised is "
+    "lowered only at reviewed sites or under a guard that the severity is exactly SEVERITY_INCOMPLETE (C03's relaxation rule and table). Not decided: equality of the hand-written scanners' "
     "accepted language with the ISO grammar, exact values, string escapes.")
 
 READERS = {"ReadInteger": "integer", "ReadReal": "real", "ReadNumber": "number"}
@@ -337,6 +338,30 @@ def helper_is_equality(prog, call):
     return (True, "helper `%s` (every result depends on both strings)" % g.name)
 
 
+LITERAL_FILES = ("src/cldai/sdaiEnum.cc", "src/cldai/sdaiBinary.cc", "src/cldai/sdaiString.cc", "src/clstepcore/read_func.cc",
+                 "src/clstepcore/STEPattribute.cc", "src/clstepcore/STEPaggrEnum.cc", "src/clstepcore/STEPaggrInt.cc",
+                 "src/clstepcore/STEPaggrReal.cc", "src/clstepcore/STEPaggrString.cc", "src/clstepcore/STEPaggrBinary.cc",
+                 "src/clstepcore/STEPaggregate.cc")
+
+
+def r7_failure_not_forgiven(prog, res, sev):
+    """In the literal readers a severity that was raised for the literal is lowered again only at the reviewed sites, and the
+    automatic case is confined to 'exactly SEVERITY_INCOMPLETE' (a missing value of an optional attribute); `<=` would also
+    forgive an invalid token.  Same engine and table as C03 R2, restricted to the files that read literals."""
+    import report
+    from rules import c03
+    sub = report.Result("C09")
+    c03.r2_relaxation(prog, sub, sev)
+    n = 0
+    for o in sub.obs:
+        parts = o.key.split("|")
+        if len(parts) > 1 and parts[1] in LITERAL_FILES:
+            n += 1
+            res.add("R7.failure_not_forgiven", "R7|" + "|".join(parts[1:]), o.where, o.ok,
+                    o.msg if o.ok else o.msg + " — in a literal reader this turns a token that failed to convert into a silently unset attribute")
+    res.floor("R7", "severity relaxations in the literal readers", n, 6)
+
+
 def run(prog, res, tier):
     sev = sev_enum(prog)
     if sev is None:
@@ -347,3 +372,4 @@ def run(prog, res, tier):
     r3_putback(prog, res)
     r4_writer_tokens(prog, res)
     r6_enum_item_match(prog, res)
+    r7_failure_not_forgiven(prog, res, sev)
